@@ -106,16 +106,20 @@ Definition shown_of (v : eval) : string := string_of_bytes (disp_eval v).
 Definition idx_of_atom (a : atom) : idx :=
   match a with AF x => idx_of_num (num_of_f64 x) | _ => INotNumber end.
 
+(* utils.rs validate_integer on an atom; the Display text is only computed for the error message *)
+Definition int_of_atom (a : atom) : result Z err :=
+  match idx_of_atom a with
+  | IInt z => Ok z
+  | i => validate_integer (string_of_bytes (disp_atom a)) i
+  end.
+
 (* vm.rs build_range_impl: pops (and validates) the end first, then the begin *)
 Definition eval_val (v : val) : result eval err :=
   match v with
   | VA a => Ok (EA a)
   | VVec l => Ok (EVec l)
   | VTup l => Ok (ETup l)
-  | VRng b e =>
-    bind (validate_integer (string_of_bytes (disp_atom e)) (idx_of_atom e)) (fun ze =>
-    bind (validate_integer (string_of_bytes (disp_atom b)) (idx_of_atom b)) (fun zb =>
-    Ok (ERng zb ze)))
+  | VRng b e => bind (int_of_atom e) (fun ze => bind (int_of_atom b) (fun zb => Ok (ERng zb ze)))
   end.
 
 Fixpoint eval_vals (l : list val) : result (list eval) err :=
@@ -130,15 +134,20 @@ Definition elem_of_atom (a : atom) : elem :=
   | _ => EOther (string_of_bytes (disp_atom a))
   end.
 
-Definition arg_of_eval (v : eval) : arg :=
-  mkArg (match v with
-         | EA (AF x) => ANum (num_of_f64 x)
-         | EA (AS s) => AStr s
-         | EA _ => AOther
-         | EVec l => AVec (map elem_of_atom l)
-         | ETup _ => AOther
-         | ERng b e => ARange b e
-         end) (shown_of v).
+Definition argv_of_eval (v : eval) : argv :=
+  match v with
+  | EA (AF x) => ANum (num_of_f64 x)
+  | EA (AS s) => AStr s
+  | EA _ => AOther
+  | EVec l => AVec (map elem_of_atom l)
+  | ETup _ => AOther
+  | ERng b e => ARange b e
+  end.
+
+(* a value prepared once per batch: its Display text (embedded in messages) and its view as a model
+   argument are computed a single time and shared by all probes that use it *)
+Record pv : Type := mkPV { pe : eval; psh : string; parg : arg }.
+Definition prep (v : eval) : pv := let sh := shown_of v in mkPV v sh (mkArg (argv_of_eval v) sh).
 
 (* ---------- outcome of a probe: printed lines or an error ---------- *)
 Definition outcome := result (list (list byte)) err.
@@ -146,8 +155,8 @@ Definition outcome := result (list (list byte)) err.
 Definition one (r : res) : outcome :=
   match r with Ok v => Ok [disp_rvalue v] | Error e => Error e end.
 
-Definition not_indexable (v : eval) : err :=
-  TypeError ("Value '" ++ shown_of v ++ "' is not indexable.").
+Definition not_indexable (v : pv) : err :=
+  TypeError ("Value '" ++ psh v ++ "' is not indexable.").
 
 Fixpoint replace_nth {A} (l : list A) (i : nat) (x : A) : list A :=
   match l, i with
@@ -185,9 +194,9 @@ Definition to_num (s : list byte) (args : list arg) : outcome :=
   | None => Error (ValueError ("Unable to parse number from '" ++ string_of_bytes s ++ "'."))
   end).
 
-Definition string_from (args : list eval) : outcome :=
+Definition string_from (args : list pv) : outcome :=
   bind (check_num_args (List.length args) 1) (fun _ =>
-  match args with [v] => Ok [disp_eval v] | _ => Error index_panic end).
+  match args with [v] => Ok [disp_eval (pe v)] | _ => Error index_panic end).
 
 (* function ids (shared with tools/props/C13.py) *)
 Definition F_index := 0%N.        Definition F_len := 3%N.
@@ -202,8 +211,8 @@ Definition F_for := 22%N.         Definition F_set_item := 23%N.    Definition F
 Definition F_value := 25%N.       (* just print the receiver (range construction, Display) *)
 
 (* ---------- Mechanism ---------- *)
-Definition mech_index (recv : eval) (a : arg) : outcome :=
-  match recv with
+Definition mech_index (recv : pv) (a : arg) : outcome :=
+  match pe recv with
   | EA (AS s) => one (string_get_item s a)
   | EVec l =>
     match slice_get_item l "Vec" a with
@@ -227,8 +236,8 @@ Definition mech_set_item (l : list atom) (a : arg) (x : atom) : outcome :=
   | Error e => Error e
   end.
 
-Definition mech_string (f : N) (s : list byte) (extra : nat) (ev : list eval) : outcome :=
-  let args := map arg_of_eval ev in
+Definition mech_string (f : N) (s : list byte) (extra : nat) (ev : list pv) : outcome :=
+  let args := map parg ev in
   if N.eqb f F_len then one (string_len s args)
   else if N.eqb f F_is_alpha then one (string_is_alpha s args)
   else if N.eqb f F_is_digit then one (string_is_digit s args)
@@ -248,27 +257,42 @@ Definition mech_string (f : N) (s : list byte) (extra : nat) (ev : list eval) : 
   else if N.eqb f F_for then for_loop s 0 (S (List.length s))
   else Error (RustPanic "unknown function id").
 
-Definition mech_eval (f : N) (extra : nat) (recv : eval) (ev : list eval) : outcome :=
+Definition mech_eval (f : N) (extra : nat) (recv : pv) (ev : list pv) : outcome :=
   if N.eqb f F_index then
-    match ev with [a] => mech_index recv (arg_of_eval a) | _ => Error (RustPanic "bad probe") end
+    match ev with [a] => mech_index recv (parg a) | _ => Error (RustPanic "bad probe") end
   else if N.eqb f F_set_item then
-    match recv, ev with
-    | EVec l, [a; EA x] => mech_set_item l (arg_of_eval a) x
+    match pe recv, ev with
+    | EVec l, [a; x] =>
+      match pe x with EA x' => mech_set_item l (parg a) x' | _ => Error (RustPanic "bad probe") end
     | _, _ => Error (RustPanic "bad probe")
     end
-  else if N.eqb f F_from_ascii then one (string_from_ascii (map arg_of_eval ev))
-  else if N.eqb f F_from_utf8 then one (string_from_utf8 (map arg_of_eval ev))
-  else if N.eqb f F_from_code_points then one (string_from_code_points (map arg_of_eval ev))
+  else if N.eqb f F_from_ascii then one (string_from_ascii (map parg ev))
+  else if N.eqb f F_from_utf8 then one (string_from_utf8 (map parg ev))
+  else if N.eqb f F_from_code_points then one (string_from_code_points (map parg ev))
   else if N.eqb f F_from then string_from ev
-  else if N.eqb f F_value then Ok [disp_eval recv]
+  else if N.eqb f F_value then Ok [disp_eval (pe recv)]
   else
-    match recv with
+    match pe recv with
     | EA (AS s) => mech_string f s extra ev
     | _ => Error (RustPanic "bad probe")
     end.
 
+(* receiver and arguments are evaluated left to right; the first failing range construction wins *)
+Fixpoint all_ok (l : list (result pv err)) : result (list pv) err :=
+  match l with
+  | [] => Ok []
+  | Ok v :: r => bind (all_ok r) (fun t => Ok (v :: t))
+  | Error e :: _ => Error e
+  end.
+
+Definition prep_val (v : val) : result pv err :=
+  match eval_val v with Ok e => Ok (prep e) | Error e => Error e end.
+
+Definition mech_p (f : N) (extra : nat) (recv : result pv err) (args : list (result pv err)) : outcome :=
+  bind recv (fun r => bind (all_ok args) (fun ev => mech_eval f extra r ev)).
+
 Definition mech (f : N) (extra : nat) (recv : val) (args : list val) : outcome :=
-  bind (eval_val recv) (fun r => bind (eval_vals args) (fun ev => mech_eval f extra r ev)).
+  mech_p f extra (prep_val recv) (map prep_val args).
 
 (* ---------- Spec ---------- *)
 Definition spec_arity (found expected : nat) : result unit err :=
@@ -277,36 +301,36 @@ Definition spec_arity (found expected : nat) : result unit err :=
                          ++ (if Nat.eqb expected 1 then "" else "s")
                          ++ " but found " ++ show_nat found ++ ".")).
 
-Definition spec_want_string (v : eval) : result (list byte) err :=
-  match v with
+Definition spec_want_string (v : pv) : result (list byte) err :=
+  match pe v with
   | EA (AS t) => Ok t
-  | _ => Error (TypeError ("Expected a string but found '" ++ shown_of v ++ "'."))
+  | _ => Error (TypeError ("Expected a string but found '" ++ psh v ++ "'."))
   end.
 
-Definition spec_want_vec (v : eval) : result (list atom) err :=
-  match v with
+Definition spec_want_vec (v : pv) : result (list atom) err :=
+  match pe v with
   | EVec l => Ok l
-  | _ => Error (TypeError ("Expected a Vec instance but found '" ++ shown_of v ++ "'."))
+  | _ => Error (TypeError ("Expected a Vec instance but found '" ++ psh v ++ "'."))
   end.
 
-Definition idx_of_eval (v : eval) : idx :=
-  match v with EA a => idx_of_atom a | _ => INotNumber end.
+Definition idx_of_eval (v : pv) : idx :=
+  match pe v with EA a => idx_of_atom a | _ => INotNumber end.
 
 Definition lines_str (r : result (list byte) err) : outcome :=
   match r with Ok t => Ok [t] | Error e => Error e end.
 
-Definition spec_index_any (recv : eval) (a : eval) : outcome :=
-  match recv with
+Definition spec_index_any (recv : pv) (a : pv) : outcome :=
+  match pe recv with
   | EA (AS s) =>
-    match a with
-    | EA (AF x) => lines_str (spec_string_index s (shown_of a) (idx_of_num (num_of_f64 x)))
+    match pe a with
+    | EA (AF x) => lines_str (spec_string_index s (psh a) (idx_of_num (num_of_f64 x)))
     | ERng rb re => lines_str (spec_string_range s rb re)
     | _ => Error (TypeError "Expected an integer or range.")
     end
   | EVec l =>
-    match a with
+    match pe a with
     | EA (AF x) =>
-      match spec_seq_index l "Vec" (shown_of a) (idx_of_num (num_of_f64 x)) with
+      match spec_seq_index l "Vec" (psh a) (idx_of_num (num_of_f64 x)) with
       | Ok y => Ok [disp_atom y] | Error e => Error e end
     | ERng rb re =>
       match spec_seq_range l "Vec" rb re with
@@ -314,9 +338,9 @@ Definition spec_index_any (recv : eval) (a : eval) : outcome :=
     | _ => Error (TypeError "Expected an integer or range.")
     end
   | ETup l =>
-    match a with
+    match pe a with
     | EA (AF x) =>
-      match spec_seq_index l "Tuple" (shown_of a) (idx_of_num (num_of_f64 x)) with
+      match spec_seq_index l "Tuple" (psh a) (idx_of_num (num_of_f64 x)) with
       | Ok y => Ok [disp_atom y] | Error e => Error e end
     | ERng rb re =>
       match spec_seq_range l "Tuple" rb re with
@@ -326,14 +350,14 @@ Definition spec_index_any (recv : eval) (a : eval) : outcome :=
   | _ => Error (not_indexable recv)
   end.
 
-Definition spec_set_item (l : list atom) (a : eval) (x : atom) : outcome :=
+Definition spec_set_item (l : list atom) (a : pv) (x : atom) : outcome :=
   match idx_of_eval a with
   | IInt z =>
     match spec_index z (Z.of_nat (List.length l)) with
     | Some k => Ok [disp_eval (EVec (firstn k l ++ x :: skipn (S k) l)%list)]
     | None => Error (oob "Vec")
     end
-  | i => Error (int_error (shown_of a) i)
+  | i => Error (int_error (psh a) i)
   end.
 
 (* elements of a Vec argument: the first offending element decides the error *)
@@ -370,7 +394,7 @@ Definition bool_line (b : bool) : outcome := Ok [bs (if b then "true" else "fals
 Definition int_line (n : nat) : outcome := Ok [disp_int (Z.of_nat n)].
 Definition ints_line (l : list N) : outcome := Ok [disp_vec (map (fun n => disp_int (Z.of_N n)) l)].
 
-Definition spec_string (f : N) (s : list byte) (extra : nat) (ev : list eval) : outcome :=
+Definition spec_string (f : N) (s : list byte) (extra : nat) (ev : list pv) : outcome :=
   let n := List.length ev in
   if N.eqb f F_len then bind (spec_arity n 0) (fun _ => int_line (List.length s))
   else if N.eqb f F_is_alpha then bind (spec_arity n 0) (fun _ => bool_line (spec_classify byte_is_alpha s))
@@ -380,7 +404,7 @@ Definition spec_string (f : N) (s : list byte) (extra : nat) (ev : list eval) : 
   else if N.eqb f F_char_byte_index then
     bind (spec_arity n 1) (fun _ =>
     match ev with
-    | [a] => match spec_char_byte_index s (shown_of a) (idx_of_eval a) with
+    | [a] => match spec_char_byte_index s (psh a) (idx_of_eval a) with
              | Ok i => int_line i | Error e => Error e end
     | _ => Error (RustPanic "unreachable")
     end)
@@ -389,7 +413,7 @@ Definition spec_string (f : N) (s : list byte) (extra : nat) (ev : list eval) : 
     match ev with
     | [asub; astart] =>
       bind (spec_want_string asub) (fun sub =>
-      match spec_find s sub (shown_of astart) (idx_of_eval astart) with
+      match spec_find s sub (psh astart) (idx_of_eval astart) with
       | Ok (Some i) => int_line i
       | Ok None => Ok [bs "nil"]
       | Error e => Error e
@@ -446,13 +470,14 @@ Definition spec_string (f : N) (s : list byte) (extra : nat) (ev : list eval) : 
   else if N.eqb f F_for then Ok (spec_iter s)
   else Error (RustPanic "unknown function id").
 
-Definition spec_eval (f : N) (extra : nat) (recv : eval) (ev : list eval) : outcome :=
+Definition spec_eval (f : N) (extra : nat) (recv : pv) (ev : list pv) : outcome :=
   let n := List.length ev in
   if N.eqb f F_index then
     match ev with [a] => spec_index_any recv a | _ => Error (RustPanic "bad probe") end
   else if N.eqb f F_set_item then
-    match recv, ev with
-    | EVec l, [a; EA x] => spec_set_item l a x
+    match pe recv, ev with
+    | EVec l, [a; x] =>
+      match pe x with EA x' => spec_set_item l a x' | _ => Error (RustPanic "bad probe") end
     | _, _ => Error (RustPanic "bad probe")
     end
   else if N.eqb f F_from_ascii then
@@ -505,17 +530,20 @@ Definition spec_eval (f : N) (extra : nat) (recv : eval) (ev : list eval) : outc
     | _ => Error (RustPanic "unreachable")
     end)
   else if N.eqb f F_from then
-    bind (spec_arity n 1) (fun _ => match ev with [v] => Ok [disp_eval v] | _ => Error (RustPanic "unreachable") end)
-  else if N.eqb f F_value then Ok [disp_eval recv]
+    bind (spec_arity n 1) (fun _ => match ev with [v] => Ok [disp_eval (pe v)] | _ => Error (RustPanic "unreachable") end)
+  else if N.eqb f F_value then Ok [disp_eval (pe recv)]
   else
-    match recv with
+    match pe recv with
     | EA (AS s) => spec_string f s extra ev
     | _ => Error (RustPanic "bad probe")
     end.
 
 (* range construction: the Spec states the same rule (end checked first) *)
+Definition spec_p (f : N) (extra : nat) (recv : result pv err) (args : list (result pv err)) : outcome :=
+  bind recv (fun r => bind (all_ok args) (fun ev => spec_eval f extra r ev)).
+
 Definition spec (f : N) (extra : nat) (recv : val) (args : list val) : outcome :=
-  bind (eval_val recv) (fun r => bind (eval_vals args) (fun ev => spec_eval f extra r ev)).
+  spec_p f extra (prep_val recv) (map prep_val args).
 
 (* ---------- rendering and the wire format ---------- *)
 Definition kind_name (e : err) : string :=
@@ -553,21 +581,58 @@ Fixpoint parse_vals (fuel : nat) (gs : list (list N)) : list val :=
     end
   end.
 
-(* one probe: groups  "f extra ; receiver ; arg ; ..." *)
-Definition run_probe (which : bool) (w : string) : string :=
-  match parse_nss w with
-  | (f :: extra :: _) :: rest =>
-    match parse_vals (S (List.length rest)) rest with
-    | recv :: args =>
-      show_outcome ((if which then mech else spec) f (N.to_nat extra) recv args)
-    | [] => "BADPROBE"
-    end
-  | _ => "BADPROBE"
+(* a batch  "<values> | <rows>" : the value table is a stream of groups read by [parse_vals]; a row is a
+   header group  "f extra receiver k mode"  followed by k groups of table indices; it stands for one probe
+   per element of the cartesian product of the k lists (first list outermost).  mode 1: k = 2 and the pair
+   (b, e) is turned into the single argument  b..e . *)
+Definition bad_ref : result pv err := Error (RustPanic "bad value reference").
+
+Fixpoint cart {A} (ls : list (list A)) : list (list A) :=
+  match ls with
+  | [] => [[]]
+  | l :: r => let cr := cart r in flat_map (fun x => map (cons x) cr) l
   end.
 
-(* a batch: probes separated by '|' ; results separated by '|' *)
-Definition run_mech_w (w : string) : string := show_sep "|" (run_probe true) (split_bar w).
-Definition run_spec_w (w : string) : string := show_sep "|" (run_probe false) (split_bar w).
+Definition rng_of (args : list (result pv err)) : list (result pv err) :=
+  match args with
+  | [Ok b; Ok e] =>
+    match pe b, pe e with
+    | EA x, EA y => [prep_val (VRng x y)]
+    | _, _ => [bad_ref]
+    end
+  | _ => [bad_ref]
+  end.
+
+Fixpoint run_rows (which : bool) (tbl : list (result pv err)) (fuel : nat) (gs : list (list N)) : list string :=
+  match fuel with
+  | O => []
+  | S fu =>
+    match gs with
+    | (f :: extra :: r :: k :: mode :: _) :: rest =>
+      let get := fun i => nth (N.to_nat i) tbl bad_ref in
+      let recv := get r in
+      let lists := map (map get) (firstn (N.to_nat k) rest) in
+      let outs := map (fun args =>
+                         let args' := if N.eqb mode 1 then rng_of args else args in
+                         show_outcome ((if which then mech_p else spec_p) f (N.to_nat extra) recv args'))
+                      (cart lists) in
+      (outs ++ run_rows which tbl fu (skipn (N.to_nat k) rest))%list
+    | _ => []
+    end
+  end.
+
+Definition run_batch (which : bool) (w : string) : string :=
+  match split_bar w with
+  | [tw; pw] =>
+    let vals := parse_nss tw in
+    let tbl := map prep_val (parse_vals (S (List.length vals)) vals) in
+    let rows := parse_nss pw in
+    show_sep "|" (fun x => x) (run_rows which tbl (S (List.length rows)) rows)
+  | _ => "BADBATCH"
+  end.
+
+Definition run_mech_w (w : string) : string := run_batch true w.
+Definition run_spec_w (w : string) : string := run_batch false w.
 
 (* UTF-8 validity of printed byte strings: groups of bytes -> "T"/"F" per group *)
 Definition run_valid_w (w : string) : string :=
